@@ -224,7 +224,7 @@ def run(prop, tier, replay):
             long = max(r["chosen"], key=lambda s: (s["id"] not in badsc, len(s["steps"])))
             samples.append({"cfg": name, "scenario": {k: long[k] for k in ("steps", "plan", "maxpar", "maxresets", "mode")},
                             "trace": by_sc.get(long["id"], [])})
-    if not replay:
+    if not replay and not out.violations:
         need = {"ops": {"write", "shutdown", "done", "abort", "drop"}, "part_outcomes": {"ok", "fail", "reset"},
                 "errs": {"err_part", "err_mpu", "err_put", "err_complete", "err_reset_max", "err_missing"}}
         for k, want in need.items():
